@@ -76,14 +76,16 @@ class Engine:
         return self._fops[key]
 
     def fop(self, name, *args):
-        """float operations are opaque (DESIGN 2.4): Int bit patterns in, bit pattern out"""
-        return self._fn("f." + name, [a.sort() for a in args], S.I)(*args)
+        """float operations are opaque spec functions `spec.core.f_<name>` (DESIGN 2.4):
+        floats are IEEE-754 binary64 bit patterns (Int), never interpreted arithmetically"""
+        fns = self.specs.load_module("spec.core")
+        sf = fns.get("f_" + name)
+        if sf is None:
+            raise Unsupported(f"float op {name}")
+        return sf.decl(*args)
 
-    def fop_bool(self, name, *args):
-        return self._fn("f." + name, [a.sort() for a in args], S.B)(*args)
-
-    def fop_int(self, name, *args):
-        return self._fn("f." + name, [a.sort() for a in args], S.I)(*args)
+    fop_bool = fop
+    fop_int = fop
 
     def bitfn(self, name, x, y):
         self.assumptions_used.add(f"bit-op `{name}` translated through the identities of DESIGN 2.4 only")
@@ -137,6 +139,8 @@ class Engine:
             return S.lift(val)
         if kind == "module":
             return Const("specmodule", val)
+        if kind == "ident":
+            return Const("specident", val)
         raise Unsupported("spec lookup")
 
     # --------------------------------------------------------- name resolution
@@ -509,6 +513,20 @@ class Engine:
             return z3.And(eq, *st.path)
         return eq
 
+    def instantiate_axiom(self, ax, app):
+        ex = Exec(self, Frame(self, None, None), total=True, specmod=ax.module)
+        st = State()
+        frame = {}
+        for p, tag, a in zip(ax.params, ax.ptags, app.children()):
+            frame[p] = V(tag, a)
+        st.frames = [frame]
+        body = spec_block(ex, st, ax.node.body)
+        self.used_axioms.add(f"{ax.module}.{ax.name}" + (" (lemma)" if ax.is_lemma else ""))
+        t = S.truthy(body)
+        if st.path:
+            return z3.And(t, *st.path)
+        return t
+
     def discharge(self, ob, timeout_ms=10000, max_fuel=3):
         t0 = time.time()
         base = list(ob.hyps) + [z3.Not(ob.goal)]
@@ -543,9 +561,13 @@ class Engine:
             new = []
             for sf, app in frontier:
                 aid = app.get_id()
-                if aid in seen_apps or sf.opaque:
+                if aid in seen_apps:
                     continue
                 seen_apps.add(aid)
+                for ax in self.specs.axioms.get(sf.decl.name(), ()):
+                    new.append(self.instantiate_axiom(ax, app))
+                if sf.opaque:
+                    continue
                 new.append(self.unfold(sf, app))
             if not new:
                 break
